@@ -296,6 +296,30 @@ pub fn xml_escape(s: &str) -> String {
     o
 }
 
+/// XML-equivalent spellings of the same text: style 0 = named entities; 1 = decimal character references for
+/// the five special characters; 2 = hexadecimal references for them; 3 = hexadecimal references for the specials
+/// AND for every third ordinary character (a parser must treat `&#x41;` exactly like `A`).
+pub fn xml_escape_styled(s: &str, style: u8) -> String {
+    if style % 4 == 0 {
+        return xml_escape(s);
+    }
+    let mut o = String::with_capacity(s.len() * 2);
+    for (i, c) in s.chars().enumerate() {
+        let special = matches!(c, '&' | '<' | '>' | '"' | '\'');
+        // XML 1.0 cannot carry most control characters even as references; leave them as they are
+        let referable = c == '\t' || c == '\n' || c == '\r' || (c >= ' ' && c != '\u{FFFE}' && c != '\u{FFFF}');
+        if special || (style % 4 == 3 && i % 3 == 2 && referable && !c.is_whitespace()) {
+            match style % 4 {
+                1 => o.push_str(&format!("&#{};", c as u32)),
+                _ => o.push_str(&format!("&#x{:X};", c as u32)),
+            }
+        } else {
+            o.push(c);
+        }
+    }
+    o
+}
+
 #[derive(Clone, Debug)]
 pub struct ListedObject {
     pub key: String,
@@ -305,6 +329,12 @@ pub struct ListedObject {
 
 /// Renders a ListObjectsV2 result document.
 pub fn list_document(bucket: &str, prefix: &str, objects: &[ListedObject], truncated: bool, pretty: bool, extras: bool, max_keys: Option<usize>) -> String {
+    list_document_styled(bucket, prefix, objects, truncated, pretty, extras, max_keys, 0)
+}
+
+#[allow(clippy::too_many_arguments)]
+pub fn list_document_styled(bucket: &str, prefix: &str, objects: &[ListedObject], truncated: bool, pretty: bool, extras: bool, max_keys: Option<usize>, style: u8) -> String {
+    let xml_escape = |t: &str| xml_escape_styled(t, style);
     let nl = if pretty { "\n  " } else { "" };
     let mut s = String::from("<?xml version=\"1.0\" encoding=\"UTF-8\"?>\n<ListBucketResult xmlns=\"http://s3.amazonaws.com/doc/2006-03-01/\">");
     s.push_str(&format!("{}<Name>{}</Name>", nl, xml_escape(bucket)));
